@@ -236,35 +236,43 @@ Definition handler_calls (write : bool) (fl : dflags) (forced : bool) (d : data)
     else [mkCall true (Some (flat d)) err total forced]
   else [mkCall false (Some (flat d)) err total forced].
 
+(* the decision part (io.c:2636-2655): (return early?, deliver, err, op) *)
+Definition dd_decide (stopped : bool) (forced : bool) (undelivered : Z) (o : op) : bool * bool * Z * op :=
+  if negb forced then
+    if undelivered >=? o_low o then (false, true, 0, o)
+    else if o_buf_len o <? o_buf_siz o then (true, false, 0, o)
+    else (false, false, 0, o)
+  else
+    let err := o_err o in
+    if (err =? 0) && stopped then (false, true, ECANCELED, set_err o ECANCELED)
+    else (false, true, err, o).
+
+(* the data part (io.c:2656-2703): the data object for the handler and the operation's new buffer / op->data *)
+Definition dd_data (deliver : bool) (o : op) : data * op :=
+  if negb (o_write o) then
+    let '(d, o) :=
+      if negb (o_buf_len o =? 0) then (o_data o ++ [o_buf o], set_buf o false (o_buf_siz o) 0 [])
+      else (o_data o, o) in
+    (d, set_data o (if deliver then [] else d))
+  else
+    let d := if deliver then dsub (o_data o) (o_buf_len o) (o_length o) else [] in
+    if o_hasbuf o && (o_buf_len o =? o_buf_siz o) then
+      let nd := if deliver then d else dsub (o_data o) (o_buf_siz o) (o_length o) in
+      (d, set_data (set_buf o false (o_buf_siz o) 0 []) nd)
+    else (d, o).
+
+(* io.c:2704-2738 *)
+Definition dd_finish (fl : dflags) (forced deliver : bool) (err undelivered : Z) (d : data) (o : op) : op * list call :=
+  if negb deliver || (f_noempty fl && (dsize d =? 0)) then (set_undelivered o undelivered, [])
+  else (set_undelivered o 0, handler_calls (o_write o) fl forced d err (o_total o)).
+
 Definition deliver_data (stopped : bool) (fl : dflags) (o0 : op) : op * list call :=
   let undelivered := o_undelivered o0 + o_buf_len o0 in
   let forced := f_deliver fl || f_done fl || o_flagd o0 in
-  let o := set_flagd o0 false in
-  (* (return early?, deliver, err, op) *)
-  let '(ret, deliver, err, o) :=
-    if negb forced then
-      if undelivered >=? o_low o then (false, true, 0, o)
-      else if o_buf_len o <? o_buf_siz o then (true, false, 0, o)
-      else (false, false, 0, o)
-    else
-      let err := o_err o in
-      if (err =? 0) && stopped then (false, true, ECANCELED, set_err o ECANCELED)
-      else (false, true, err, o) in
+  let '(ret, deliver, err, o) := dd_decide stopped forced undelivered (set_flagd o0 false) in
   if ret then (o, []) else
-  let '(d, o) :=
-    if negb (o_write o) then
-      let '(d, o) :=
-        if negb (o_buf_len o =? 0) then (o_data o ++ [o_buf o], set_buf o false (o_buf_siz o) 0 [])
-        else (o_data o, o) in
-      (d, set_data o (if deliver then [] else d))
-    else
-      let d := if deliver then dsub (o_data o) (o_buf_len o) (o_length o) else [] in
-      if o_hasbuf o && (o_buf_len o =? o_buf_siz o) then
-        let nd := if deliver then d else dsub (o_data o) (o_buf_siz o) (o_length o) in
-        (d, set_data (set_buf o false (o_buf_siz o) 0 []) nd)
-      else (d, o) in
-  if negb deliver || (f_noempty fl && (dsize d =? 0)) then (set_undelivered o undelivered, [])
-  else (set_undelivered o 0, handler_calls (o_write o) fl forced d err (o_total o)).
+  let '(d, o) := dd_data deliver o in
+  dd_finish fl forced deliver err undelivered d o.
 
 (* ---------------------------------------------------------------- life of the operation *)
 Inductive phase := Idle | Picked | Performed (result : Z) | Completed.
@@ -285,7 +293,9 @@ Inductive event :=
 | EvPerform (rs : list sysres)    (* _dispatch_operation_perform *)
 | EvAct                           (* result -> action table (io.c:2106-2145 / 2242-2262) *)
 | EvTimer                         (* interval timer handler (io.c:1227-1244) *)
-| EvCleanup                       (* _dispatch_stream_cleanup_operations / _dispatch_disk_cleanup_inactive_operations reach the op *)
+| EvCleanup (fd_wide : bool)      (* _dispatch_stream_cleanup_operations / _dispatch_disk_cleanup_*_operations reach the op;
+                                     fd_wide = called with channel == NULL after a descriptor error (io.c FD_ERR),
+                                     otherwise for the op's own channel after a stop / ECANCELED result *)
 | EvClose | EvStop                (* DIO_CLOSED / DIO_STOPPED become visible *)
 | EvFdErr (e : Z).                (* another operation recorded EBADF / open failure in fd_entry->err *)
 
@@ -350,14 +360,19 @@ Definition step (c : cfg) (s : st) (e : event) : st :=
             mkSt (set_flagd (s_op s) true) (s_phase s) (s_closed s) (s_stopped s) (s_fderr s) (s_calls s) (s_io s)
           else with_deliver s fl (s_phase s)
       end
-  | EvCleanup =>
+  | EvCleanup fd_wide =>
       match s_phase s with
       | Completed => s
       | _ =>
-          (* only reached from _dispatch_io_stop, an ECANCELED result, or an EBADF result *)
-          if negb (s_stopped s || negb (s_fderr s =? 0)) then s
-          else if is_active s then s     (* cleanup_inactive_operations skips active operations *)
-          else complete s
+          if is_active s then s          (* cleanup_inactive_operations skips active operations *)
+          else if fd_wide then
+            (* only reached after an EBADF result recorded fd_entry->err; the operation inherits that error *)
+            if s_fderr s =? 0 then s
+            else complete (mkSt (if o_err (s_op s) =? 0 then set_err (s_op s) (s_fderr s) else s_op s)
+                                (s_phase s) (s_closed s) (s_stopped s) (s_fderr s) (s_calls s) (s_io s))
+          else
+            (* only reached from _dispatch_io_stop or an ECANCELED result: the channel is stopped *)
+            if s_stopped s then complete s else s
       end
   end.
 
@@ -418,13 +433,13 @@ Fixpoint split_group (rs : list sysres) : list sysres * list sysres :=
 
 Definition new_calls (s s' : st) : list obs := map call_obs (skipn (length (s_calls s)) (s_calls s')).
 
-Fixpoint explain (fuel : nat) (c : cfg) (may_stop may_close : bool) (s : st) (rs : list sysres) (ob : list obs) : bool :=
+Fixpoint explain (fuel : nat) (c : cfg) (may_stop may_fderr : bool) (s : st) (rs : list sysres) (ob : list obs) : bool :=
   match fuel with
   | O => false
   | S fuel =>
       let try (s' : st) (rs' : list sysres) : bool :=
         match strip_prefix (new_calls s s') ob with
-        | Some ob' => explain fuel c may_stop may_close s' rs' ob'
+        | Some ob' => explain fuel c may_stop may_fderr s' rs' ob'
         | None => false
         end in
       match s_phase s with
@@ -446,13 +461,15 @@ Fixpoint explain (fuel : nat) (c : cfg) (may_stop may_close : bool) (s : st) (rs
               end) then true
           (* asynchronous events *)
           else if (if may_stop then if s_stopped s then false else try (step c s EvStop) rs else false) then true
+          else if (if may_fderr then if s_fderr s =? 0 then try (step c s (EvFdErr EBADF)) rs else false else false) then true
           else if (if o_interval (s_op s) then
                      let s' := step c s EvTimer in
                      if negb (length (s_calls s') =? length (s_calls s))%nat
                         || (is_active s && o_strict (s_op s) && negb (o_flagd (s_op s)))
                      then try s' rs else false
                    else false) then true
-          else if (s_stopped s || negb (s_fderr s =? 0)) && negb (is_active s) then try (step c s EvCleanup) rs
+          else if (if s_stopped s && negb (is_active s) then try (step c s (EvCleanup false)) rs else false) then true
+          else if negb (s_fderr s =? 0) && negb (is_active s) then try (step c s (EvCleanup true)) rs
           else false
       end
   end.
@@ -478,7 +495,7 @@ Definition apply_setters (p : params) (l : list setter) : params :=
 
 (* an operation as the client sees it: either it never reaches a stream (creation / enqueue on a closed, stopped or
    failed channel, or zero length) or it lives as above *)
-Definition explain_op (c : cfg) (may_stop may_close : bool) (o : op) (rs : list sysres) (ob : list obs) : bool :=
+Definition explain_op (c : cfg) (may_stop may_close may_fderr : bool) (o : op) (rs : list sysres) (ob : list obs) : bool :=
   let imm (closed stopped : bool) :=
     match create_or_enqueue closed stopped 0 (o_write o) (o_length o) (o_data o) with
     | Some k => match rs, ob with [], [x] => obs_eqb (call_obs k) x | _, _ => false end
@@ -488,7 +505,79 @@ Definition explain_op (c : cfg) (may_stop may_close : bool) (o : op) (rs : list 
   else if (if may_close then imm true false else false) then true
   else if (if may_stop then imm false true else false) then true
   else if o_length o =? 0 then false
-  else explain (4 * length rs + 4 * length ob + 24) c may_stop may_close (st_init o) rs ob.
+  else explain (4 * length rs + 4 * length ob + 24) c may_stop may_fderr (st_init o) rs ob.
 
 (* a data object of n zero bytes in one region (the model's control flow never looks at byte values) *)
 Definition zeros (n : Z) : list Z := repeat 0 (Z.to_nat n).
+
+(* ---------------------------------------------------------------- the per-direction operation lists of a stream
+   (struct dispatch_stream_s: operations[2], op; io.c:1823-1836, 1858-1874, 1905-1935, 1964-1986) *)
+Record sop := { so_id : Z; so_chan : Z; so_random : bool (* params.type == DISPATCH_IO_RANDOM *) }.
+Record stream := mkStream {
+  q_s : list sop;              (* operations[DISPATCH_IO_STREAM] *)
+  q_r : list sop;              (* operations[DISPATCH_IO_RANDOM] *)
+  q_cur : option sop;          (* stream->op *)
+  q_done : list sop;           (* ghost: operations in the order _dispatch_stream_complete_operation saw them *)
+  q_enq : list sop             (* ghost: operations in the order TAILQ_INSERT_TAIL saw them *)
+}.
+Definition stream_init := mkStream [] [] None [] [].
+Definition same_op (a b : sop) : bool := so_id a =? so_id b.
+Fixpoint remove_first (a : sop) (l : list sop) : list sop :=
+  match l with [] => [] | h :: t => if same_op a h then t else h :: remove_first a t end.
+Fixpoint next_after (a : sop) (l : list sop) : option sop :=
+  match l with [] => None | h :: t => if same_op a h then (match t with n :: _ => Some n | [] => None end) else next_after a t end.
+
+(* _dispatch_stream_pick_next_operation(stream, stream->op) *)
+Definition pick_next (q : stream) : option sop :=
+  match q_cur q with
+  | None =>
+      match q_s q with
+      | h :: _ => Some h
+      | [] => match q_r q with h :: _ => Some h | [] => None end
+      end
+  | Some op =>
+      if negb (so_random op) then Some op
+      else match next_after op (q_r q) with
+           | Some n => Some n
+           | None => match q_r q with h :: _ => Some h | [] => None end
+           end
+  end.
+
+(* _dispatch_stream_complete_operation *)
+Definition complete_op (q : stream) (op : sop) : stream :=
+  mkStream (if so_random op then q_s q else remove_first op (q_s q))
+           (if so_random op then remove_first op (q_r q) else q_r q)
+           (match q_cur q with Some c => if same_op op c then None else Some c | None => None end)
+           (q_done q ++ [op]) (q_enq q).
+
+(* _dispatch_stream_cleanup_operations(stream, channel): RANDOM list first, then STREAM list, each in list order *)
+Definition chan_match (ch : option Z) (op : sop) : bool :=
+  match ch with None => true | Some c => so_chan op =? c end.
+Definition cleanup_ops (q : stream) (ch : option Z) : stream :=
+  fold_left complete_op (filter (chan_match ch) (q_r q) ++ filter (chan_match ch) (q_s q)) q.
+
+(* what the handler's result table does with the picked operation *)
+Inductive hres := HKeep | HComplete | HErr.   (* DELIVER/RESUME/FD_ERR | COMPLETE*/error at pick | DISPATCH_OP_ERR *)
+Inductive sevent :=
+| SEnq (op : sop)                 (* _dispatch_stream_enqueue_operation *)
+| SHandler (r : hres)             (* one pass of _dispatch_stream_handler (a `goto pick` is another pass) *)
+| SCleanup (ch : option Z).       (* _dispatch_stream_cleanup_operations from stop / FD_ERR *)
+
+Definition sstep (q : stream) (e : sevent) : stream :=
+  match e with
+  | SEnq op =>
+      mkStream (if so_random op then q_s q else q_s q ++ [op]) (if so_random op then q_r q ++ [op] else q_r q)
+               (q_cur q) (q_done q) (q_enq q ++ [op])
+  | SHandler r =>
+      match pick_next q with
+      | None => q
+      | Some op =>
+          match r with
+          | HComplete => complete_op q op      (* error at pick: stream->op is not yet set; complete clears it if equal *)
+          | HKeep => mkStream (q_s q) (q_r q) (Some op) (q_done q) (q_enq q)
+          | HErr => cleanup_ops (mkStream (q_s q) (q_r q) (Some op) (q_done q) (q_enq q)) (Some (so_chan op))
+          end
+      end
+  | SCleanup ch => cleanup_ops q ch
+  end.
+Definition srun (q : stream) (evs : list sevent) : stream := fold_left sstep evs q.
